@@ -497,7 +497,9 @@ class Grid:
                 )
                 metric_vars = self.interp_like(mv, array, "extend", None)
         else:
-            for axis_combinations in iterate_axis_combinations(axes):
+            for axis_combinations in iterate_axis_combinations(
+                [ax for ax in self.axes if ax in axes]
+            ):
                 try:
                     # will raise KeyError if the axis combination is not in metrics
                     possible_metric_vars = [
